@@ -86,6 +86,19 @@ def probe (shape : String) (n : Nat) : NBytes :=
     else rep "NOT (" ++ all ++ rep ")"
   Framing.strBytes "s SELECT m\r\n" ++ Framing.strBytes "d SEARCH " ++ body ++ [13, 10]
 
+/-- how deeply the probe nests keys (NOT / OR operands and parenthesised lists together), from its
+    shape alone -/
+def probeNesting (shape : String) (n : Nat) : Nat :=
+  if shape == "notparen" then 2 * n
+  else if shape == "notlistnot" || shape == "orlistor" then 2 * n + 1
+  else if shape == "notlists" then 4 * n + 3
+  else n
+
+/-- the server bounds NOT/OR nesting and list nesting by 1000 each; whatever the shape, a command
+    nested 2000 deep or more can therefore never be accepted ("list nesting is bounded": the limits
+    add up, they do not multiply) -/
+def nestingBound : Nat := 2000
+
 def handle (f : List String) : String :=
   match f with
   | [id, "depth", shape, n, res, closes, panics, drained] =>
@@ -104,6 +117,8 @@ def handle (f : List String) : String :=
         else if panics != "0" then "fail:server-panicked"
         else if closes != "1" then s!"fail:session-closed-{closes}-times"
         else if drained != "1" then "fail:connection-still-tracked-after-close"
+        else if res == "OK" && probeNesting shape n ≥ nestingBound then
+          s!"fail:nesting-not-bounded@{probeNesting shape n}"
         else "ok"
       let depth := evs.foldl (fun m e => match e with | .depthAt k => max m k | _ => m) 0
       s!"{id}\t{boolStr (m == res)}\t{orc}\t{m} depth={depth}"
